@@ -129,3 +129,21 @@ def finalize(report, tier):
     brief = {k: v for k, v in cov.items() if isinstance(v, (int, float, bool)) and not isinstance(v, str)}
     print(f"[{pid}] tier={tier} seed={env.SEED} wall={ev['wall_s']}s violations={len(new)} known_hit={len(hit)} " + " ".join(f"{k}={v}" for k, v in sorted(brief.items())))
     return 1 if new else 0
+
+
+def robust(mk, witness, *args):
+    """A case failed inside the exploration, now mk(*args) shrinks and documents it.  If the failure cannot be
+    reproduced when the case is evaluated alone (mk returns None or breaks), the implementation's answer depended on
+    what was evaluated before it in the same process: that is reported as a violation in its own right - it is
+    never dropped."""
+    try:
+        f = mk(*args)
+        why = "no failure when re-evaluated alone"
+    except Exception as e:  # noqa
+        f = None
+        why = f"re-evaluation broke: {type(e).__name__}: {e}"
+    if f is None:
+        f = Failure("history-dependent", witness, expected="the same answer as when the case is evaluated alone in a fresh state",
+                    observed="a wrong answer when evaluated after the earlier cases of this run (" + why + ")",
+                    note="state kept between independent evaluations (cache / memo / shared default); replay the whole check to reproduce")
+    return f
